@@ -30,11 +30,24 @@ BYTE_SOURCES = [
     ('utf8-nonascii', "x='\u00e9\u00e9'".encode('utf-8')),
     ('crlf', b"x=1\r\ny=2\r\n"),
     ('already-minified', b"def f(a):return a\nprint(f(1))"),
-    ('shebang-only', b"#!/bin/sh\n"),
-    ('shebang-code', b"#!/usr/bin/python\nx=1"),
+    ('in-operator-grows', b"0in x"),
     ('hex-literal', b"x=0x10"),
     ('float-literal', b"x=1e5"),
 ]
+
+
+# every body also behind each kind of #! line (the line is carried over by preserve_shebang, which is on by default), and #! lines alone
+PREFIXES = [('', b''), ('sh:', b'#!/bin/sh\n'), ('env:', b'#!/usr/bin/env python3\n'), ('nonascii:', b'#!/opt/caf\xc3\xa9/bin/python -u\n'), ('crlf:', b'#!/bin/sh\r\n')]
+SHEBANG_ONLY = [('shebang-no-newline', b'#!/bin/sh'), ('shebang-args-no-newline', b'#!/usr/bin/env python3 -u'), ('shebang-cr', b'#!/bin/sh\r'),
+                ('shebang-two-newlines', b'#!/bin/sh\n\n')]
+
+
+def byte_sources():
+    out = []
+    for pn, pre in PREFIXES:
+        for name, body in BYTE_SOURCES:
+            out.append((pn + name, pre + body))
+    return out + SHEBANG_ONLY
 
 
 def byte_job(job):
@@ -78,7 +91,7 @@ def byte_job(job):
     rec = {'id': job['id'], 'shape': 'stdin' if via_stdin else 'one_file', 'mode': mode, 'force': force,
            'files': [{'reach': 'named', 'class': cls, 'post': what, 'readlen': len(src), 'apilen': len(api) if api is not None else 0,
                       'api_is_pre': api is not None and api == src, 'opened_w': opened_w, 'opened_r': True}],
-           'exit': int(res['exit']), 'exc': res['exc'], 'outw': outw, 'sout': sout, 'order': [1], 'listed': 0}
+           'exit': int(res['exit']), 'exit2': int(res['exit_script']), 'exc': res['exc'], 'outw': outw, 'sout': sout, 'order': [1], 'listed': 0}
     shutil.rmtree(root, ignore_errors=True)
     return rec
 
@@ -94,12 +107,12 @@ def run(args, rep):
     _cli.run_and_judge(rep, cfgs, 'c14:', args.seed, 'C14')
     # byte-level sources
     jobs = []
-    srcs = list(BYTE_SOURCES)
+    srcs = byte_sources()
     if args.tier != 'quick':
         # seeded random short byte strings built from pieces that stress re-encoding
         pieces = [b"x=", b"'\t'", b"'\xc3\xa9'", b"1", b"\n", b";", b"y", b"'a'", b"#c\n", b"\r\n", b"0x1", b"(", b")", b" "]
         for k in range(3000):
-            srcs.append(('rnd%d' % k, b''.join(rng.choice(pieces) for _ in range(rng.randint(1, 8)))))
+            srcs.append(('rnd%d' % k, rng.choice([b'', b'', b'#!/bin/sh\n', b'#!/x']) + b''.join(rng.choice(pieces) for _ in range(rng.randint(0, 8)))))
     for name, src in srcs:
         for mode in ('stdout', 'output', 'in_place'):
             for force in (False, True):
@@ -126,7 +139,7 @@ def run(args, rep):
             replay={'kind': 'cli-bytes', 'id': rid, 'observed': o})
     rep.sample({'byte_source': 'raw-tab', 'observed': byid.get('bytes:raw-tab|stdout|False|False')})
     rep.rule = ('TLC-enumerated configurations containing a shrinking / equal / growing / empty target in every mode, plus stdin shapes, '
-                'plus byte-level sources (cookies, BOM, raw control characters, tiny and empty inputs) in every mode x override x stdin; '
+                'plus byte-level sources (cookies, BOM, raw control characters, tiny and empty inputs; each also behind 4 kinds of #! line, and #! lines alone) in every mode x override x stdin; '
                 'non-trivial = distinct (configuration | source, size class) pairs')
     rep.extra.update({'configurations_enumerated_by_tlc': total, 'byte_sources': len(srcs),
                       'checker_cmd': 'tlc Cli.tla; tlc Trace_Cli.tla over ndjson run records'})
